@@ -94,6 +94,54 @@ PROPS = {
         technique="Lean 4 invariant proof (induction over node operation histories) + differential correspondence on objects.Node",
         design_ref="DESIGN.md section 4 C01",
     ),
+    "C02": dict(
+        module="YkProps.C02",
+        leancheck=["YkModel.Queue", "YkProofs.Queue", "YkProps.C02"],
+        runs=[dict(comp="queue", quick=2400, thorough=64000)],
+        classify=cls_default,
+        nontrivial=lambda line: '"op":"reset"' not in line,
+        rule="queue: random queue trees (2..8 queues, chains and fans, sparse max/guaranteed with undefined/0/positive entries per type, maxApplications) built with NewConfiguredQueue; <=48 ops per tree: TryIncAllocatedResource, IncAllocatedResource (forced), DecAllocatedResource, SetResources, SetMaxResource(root), canRunApp / incRunningApps / decRunningApps / setAllocatingAccepted (hooks), SetMaxRunningApps; after every op the whole tree (allocated, raw max, guaranteed, headroom, max headroom, effective max, counters) is dumped, compared with the model and the property clauses are evaluated on the dump. non-trivial = not a reset line; distinct = distinct protocol lines",
+        trusted=["exact integer arithmetic in the queue model (no quantity saturates)",
+                 "the scheduler adds usage only through TryIncAllocatedResource (application.go tryNode); the full-stack check monitors 'no new over-max usage after a scheduling cycle' on the real core"],
+        assumptions=["tree well-formed: parents created before children, resource maps have unique keys"],
+        level_text="Lean 4 proofs over all queue trees and allocations: a successful TryIncAllocatedResource leaves no queue of the path above its maximum on any type of the allocation (all types at the root, defined types elsewhere), "
+                   "is all-or-nothing, touches only the path and only the allocation's types, never creates new over-max usage; effective maximum and headroom of a queue are never looser than the parent's. "
+                   "Tie: correspondence of the hand-written QTree model against objects.Queue trees, with the same clauses evaluated on the dumped implementation state.",
+        level_note="trusted: Lean kernel; hand-written queue model tied by correspondence only; exact arithmetic; forced paths (IncAllocatedResource, lowered maxima) are excluded by the property itself",
+        technique="Lean 4 proof over a queue-tree model + differential correspondence on objects.Queue",
+        design_ref="DESIGN.md section 4 C02",
+    ),
+    "C11": dict(
+        module="YkProps.C11",
+        leancheck=["YkModel.Queue", "YkProofs.Queue", "YkProps.C11", "YkProps.C10"],
+        runs=[dict(comp="queue", quick=2400, thorough=64000)],
+        classify=cls_default,
+        nontrivial=lambda line: '"op":"reset"' not in line,
+        rule="queue: random queue trees (2..8 queues, chains and fans, sparse max/guaranteed with undefined/0/positive entries per type, maxApplications) built with NewConfiguredQueue; <=48 ops per tree: TryIncAllocatedResource, IncAllocatedResource (forced), DecAllocatedResource, SetResources, SetMaxResource(root), canRunApp / incRunningApps / decRunningApps / setAllocatingAccepted (hooks), SetMaxRunningApps; after every op the whole tree (allocated, raw max, guaranteed, headroom, max headroom, effective max, counters) is dumped, compared with the model and the property clauses are evaluated on the dump. non-trivial = not a reset line; distinct = distinct protocol lines",
+        trusted=["which FSM callbacks call incRunningApps/decRunningApps is regenerated from application_state.go (T2) and proved in YkProps/C10.callbacks_tie",
+                 "counters vs applications of the subtree (running <= #Running, allocating are live, zero when empty) are monitored on the full stack"],
+        assumptions=["maxApplications fixed during a history of counter operations (lowering it is a configuration change)"],
+        level_text="Lean 4 proofs for all trees and histories of counter operations: canRunApp says yes only if every ancestor with a maximum has room for one more next to running+allocating (or already tracks the application); "
+                   "the running count never exceeds the maximum; an application counted as running is no longer allocating. Tie: correspondence against objects.Queue (hooks) + the gate clause evaluated on the dumped state.",
+        level_note="trusted: Lean kernel; hand-written queue counters model tied by correspondence only",
+        technique="Lean 4 invariant proof over counter-operation histories + differential correspondence on objects.Queue",
+        design_ref="DESIGN.md section 4 C11",
+    ),
+    "C10": dict(
+        module="YkProps.C10",
+        leancheck=["YkModel.AppFsm", "YkProps.C10"],
+        runs=[],
+        classify=cls_default,
+        nontrivial=lambda line: True,
+        rule="the transition table and callback bodies are regenerated from application_state.go (T2) and the theorems re-checked; application-level histories are exercised by the full-stack check",
+        trusted=["looplab/fsm semantics: first matching (event, source) transition; same-state transitions are swallowed by HandleApplicationEvent"],
+        assumptions=[],
+        level_text="Lean 4 proofs over the transition table REGENERATED from application_state.go: for all states a != b, some event moves a to b iff the documented life cycle has the edge; every event history yields a state log of documented edges; "
+                   "terminal states only expire; the callbacks that maintain the running counter / run the terminated callback / arm the completing timer are the expected ones.",
+        level_note="trusted: Lean kernel, translator T2, looplab/fsm library semantics; application object behaviour (asks/allocations driving the events) is covered by the full-stack monitors",
+        technique="Lean 4 proof by exhaustive case analysis over a table regenerated from source (T2)",
+        design_ref="DESIGN.md section 4 C10",
+    ),
 }
 
 
